@@ -556,12 +556,14 @@ class Summariser:
 
 
 def to_load(t):
-    import copy
-    t2 = copy.deepcopy(t)
-    for n in ast.walk(t2):
-        if hasattr(n, 'ctx'):
-            n.ctx = ast.Load()
-    return t2
+    """load-context twin of an assignment target (shallow: sub-expressions are shared)"""
+    if isinstance(t, ast.Name):
+        return ast.copy_location(ast.Name(id=t.id, ctx=ast.Load()), t)
+    if isinstance(t, ast.Attribute):
+        return ast.copy_location(ast.Attribute(value=t.value, attr=t.attr, ctx=ast.Load()), t)
+    if isinstance(t, ast.Subscript):
+        return ast.copy_location(ast.Subscript(value=t.value, slice=t.slice, ctx=ast.Load()), t)
+    return t
 
 
 def mentions(x, sub):
